@@ -141,6 +141,9 @@ def check_literal(lit, position):
     elif position == "name2":
         # second selector of a bracketed selection inside a filter query
         query = "$[?@['zz', " + lit + "]]"
+    elif position == "relname":
+        # name selector of a relative singular query that is a comparison operand
+        query = "$[?@[" + lit + "] == 1]"
     elif position == "arg":
         # inside a function argument, after another argument-like comma
         query = "$[?count(@[*, " + lit + "]) == 2]"
@@ -164,6 +167,9 @@ def check_literal(lit, position):
     elif position == "name2":
         doc = [{exp + "x": 1}, {exp: 2}, 0]
         want = [[[1], impl.jsonable({exp: 2})]]
+    elif position == "relname":
+        doc = [{exp + "x": 1}, {exp: 1}, {exp: 2}, 1]
+        want = [[[1], impl.jsonable({exp: 1})]]
     elif position == "arg":
         doc = [{exp + "x": 1}, {exp: 2}, {exp: 1, exp + "y": 3, "k": 0}]
         want = [[[1], impl.jsonable({exp: 2})]]
@@ -184,6 +190,8 @@ def check_case(case):
     pos = case["position"]
     if pos == "name2":
         lit = q[len("$[?@['zz', "):-2]
+    elif pos == "relname":
+        lit = q[len("$[?@["):-len("] == 1]")]
     elif pos == "arg":
         lit = q[len("$[?count(@[*, "):-len("]) == 2]")]
     else:
@@ -203,7 +211,7 @@ def run_shard(desc):
             if first is None:
                 first = lit
             sh.states += 1
-            extra = ("name2", "arg") if desc["space"] in ("seq", "ascii_escapes", "truncated", "pairs_boundary") else ()
+            extra = ("name2", "arg", "relname") if desc["space"] in ("seq", "ascii_escapes", "truncated", "pairs_boundary") else ()
             for position in ("name", "cmp") + extra:
                 sh.transitions += 1
                 sh.traces += 1
